@@ -201,7 +201,7 @@ def check(ctx):
     ps2 = ctx.builder().summarize(pd_, {"center_features": ("const", True), "scale_features": ("const", False)}, self_cls=cls)
     cent = None
     for pc, name, t, n in ps2.assigns:
-        if name == "df" and t[0] == "setitem" and t[2] == _A("features") and t[3][0] == "bin" and t[3][1] == "-":
+        if t[0] == "setitem" and t[2] == _A("features") and t[3][0] == "bin" and t[3][1] == "-":
             cent = t
     ok5 = False
     detail = "centring statement df[self.features] -= df[self.features].mean() not found"
@@ -218,7 +218,7 @@ def check(ctx):
     ok6 = False
     detail = "'other' pooling not found"
     for pc, name, t, n in es.assigns:
-        if name == "df" and t[0] == "setitem" and t[3][0] == "call" and ir.show(t[3][1]).endswith("where") and len(t[3][2]) == 3:
+        if t[0] == "setitem" and t[3][0] == "call" and ir.show(t[3][1]).endswith("where") and len(t[3][2]) == 3:
             c, a, bb = t[3][2]
             guard = [cc for cc, pol in pc if cc[0] == "cmp"]
             fe_elem = t[2]
@@ -248,7 +248,6 @@ def check(ctx):
     cf = ctx.fn(BM, "BootstrapElectionModel.compute_bootstrap_errors")
     cs = ctx.builder().summarize(cf, self_cls=bcls)
     NT, NTe = ("sub", ("attr", R_, "shape"), ("const", 0)), ("sub", ("attr", N_, "shape"), ("const", 0))
-    xtr, xte = cs.env.get("x_train_df"), cs.env.get("x_test_df")
     fz = _A("featurizer")
     ok8 = False
     detail = "bootstrap design slices not recognised"
@@ -264,8 +263,14 @@ def check(ctx):
         detail = ("train = x_all[:n_train], holdout = x_all[n_train:n_train+n_test] of prepare_data(concat([reporting, nonreporting, unexpected]))" if ok8
                   else f"train slice ok={okA}, holdout slice ok={okH}, matrix from [R, N, U] ok={okP}")
     ctx.ob("C16.R8.bootstrap", f"{cf.qualname}|design slices follow the concat order", ok8, cf.where(), detail)
-    ytr = [t for pc, name, t, n in cs.assigns if name in ("y_train", "z_train", "weights_train")]
-    oky = len(ytr) == 3 and all(any(x == R_ for x in ir.walk(t)) and not any(x == N_ for x in ir.walk(t)) for t in ytr)
+    # arguments of the two primary fits: everything except the design matrix must come from the reporting frame
+    ytr = []
+    for _, _, t_, _ in cs.assigns + [(None, None, e_[1], None) for e_ in cs.effects]:
+        for x in ir.walk(t_):
+            if x[0] == "call" and x[1][0] == "attr" and x[1][2] == "fit" and dict(x[3]).get("lambda_") is not None and len(x[2]) >= 2 and x not in ytr:
+                ytr.append(x)
+    ytr = [a for x in ytr for a in list(x[2][1:]) + [dict(x[3]).get("weights")] if a is not None]
+    oky = len(ytr) >= 4 and all(any(x == R_ for x in ir.walk(t)) and not any(x == N_ for x in ir.walk(t)) for t in ytr)
     ctx.ob("C16.R8.targets", f"{cf.qualname}|training targets and weights from the reporting frame", oky, cf.where(),
            "y, z and weights of the training rows are columns of the reporting frame (same row order as x_all[:n_train])" if oky else "training targets are not taken from the reporting frame")
     gs = ctx.fn(BM, "BootstrapElectionModel._get_strata")
